@@ -374,7 +374,44 @@ def check_scanner_recheck(db, chk):
     chk.ob(R, "needs_recheck-consulted", hit, "scalar_indexed_scan consults ScalarIndexExpr::needs_recheck", fs[0].loc())
 
 
+def check_zone_statistics_accumulate(db, chk):
+    """A zone is filled by SEVERAL update_stats calls (the trainer cuts the stream into chunks regardless of zone and fragment
+    boundaries).  Whatever update_stats records about the current zone in a plain field (`has_null`, null / NaN counts) must
+    therefore be combined with what the field already holds; a plain overwrite forgets the earlier slices of the zone, and a
+    zone that looks NULL-free is skipped by IS NULL although it holds the row."""
+    R = "INV-zone-statistics-accumulate"
+    chk.rule(R, "every field of the builder that update_stats stores is computed from its previous value (data or control dependence): "
+                "`x = x || seen`, `x += n`, never `x = seen`")
+    n = 0
+    for f in sorted(db.fns.values(), key=lambda f: (f.file, f.line)):
+        if not (f.focus and f.path.endswith("::update_stats") and ("scalar/bloomfilter" in f.file or "scalar/zonemap" in f.file)):
+            continue
+        chk.analysed(f)
+        c = f.cfg
+        for i, j, st in c.stmts():
+            lhs = st.get("lhs")
+            if not (lhs and len(lhs) > 1 and lhs[0] == 1):
+                continue
+            flds = [e["f"] for e in lhs[1:] if isinstance(e, dict) and "f" in e]
+            if not flds:
+                continue
+            rv = st["rv"]
+            o = set()
+            for k in ("op", "a", "b"):
+                if k in rv:
+                    o |= c.op_origins(rv[k], transparent=lambda t_: True)
+                    o |= c.op_control_origins(rv[k], transparent=lambda t_: True)
+            n += 1
+            who = f.path.split("::")[-2]
+            chk.ob(R, "%s.%s" % (who, flds[-1]), ("field", flds[-1]) in o,
+                   "%s::update_stats stores self.%s %s" % (who, flds[-1], "from its previous value and the new slice" if ("field", flds[-1]) in o else
+                                                          "without looking at its previous value: the statistics of the earlier slices of the zone are lost"),
+                   f.loc(st.get("ln")))
+    chk.floor(R, "zone statistics stored by update_stats", n, 3)
+
+
 def run(db, chk):
+    check_zone_statistics_accumulate(db, chk)
     check_search_kinds(db, chk)
     check_consumers(db, chk)
     check_scanner_recheck(db, chk)
